@@ -29,7 +29,7 @@ ASSUMPTIONS = ["well-posed graphs only (every connected component holds a fixed 
                "(the repository's boxplus clamps them) and non-finite values are counted as inconclusive; self-loop edges are not driven"]
 
 
-def one_step_check(ctx, spec, labels, ffp, case, monitor_prefix=""):
+def one_step_check(ctx, spec, labels, ffp, case, monitor_prefix="", cond_max=1e10):
     g = M.build(spec)
     verts = g._vertices
     fixed_before = [bool(v.fixed) for v in verts]
@@ -42,8 +42,8 @@ def one_step_check(ctx, spec, labels, ffp, case, monitor_prefix=""):
         H, b, chi, idx, n = M.assemble(g, "real")
     free = M.free_mask(g, n, idx, fixed_ids)
     dx_ref, cond = M.reduced_step(H, b, free)
-    if dx_ref is None or cond > 1e10 or not np.all(np.isfinite(dx_ref)):
-        raise Skip("cond(H_reduced) > 1e10 or singular")
+    if dx_ref is None or cond > cond_max or not np.all(np.isfinite(dx_ref)):
+        raise Skip("cond(H_reduced) > %.0e or singular" % cond_max)
     for v, k in zip(verts, kinds):
         if k == "se3":
             i0 = idx[id(v)]
@@ -141,3 +141,30 @@ def run_case(ctx, i, rng):
             ctx.nontrivial(gen.fingerprint(spec))
         ctx.sample({"n_vertices": len(spec["vertices"]), "n_edges": len(spec["edges"]), "labels": sorted(labels), "cond": cond, "max_increment": moved,
                     "edge_types": [e["type"] for e in spec["edges"]][:12], "fix_first_pose": ffp}, cap=2)
+
+
+def _dataset_case(name, nmax, augment):
+    def f(ctx):
+        from .. import datasets
+
+        if not datasets.available(name):
+            ctx.skip("dataset file missing: " + name)
+            return
+        rng = np.random.default_rng([3, nmax, int(augment)])
+        spec = datasets.load_spec(name, nmax)
+        if augment:
+            spec = datasets.augment_with_landmarks(rng, spec, 15)
+            perm = rng.permutation(len(spec["vertices"]) - 1) + 1
+            spec["vertices"] = [spec["vertices"][0]] + [spec["vertices"][int(j)] for j in perm]
+        labels = {"dataset:" + name}
+        try:
+            one_step_check(ctx, spec, labels, True, {"dataset": name, "n_vertices": nmax, "augmented": augment}, cond_max=1e13)
+        except Skip as sk:
+            ctx.skip("dataset %s: %s" % (name, sk.reason))
+        ctx.count("dataset:" + name)
+        ctx.nontrivial("dataset-%s-%d-%s" % (name, nmax, augment))
+    return f
+
+
+DATASET_CASES = [_dataset_case("intel", 150, False), _dataset_case("intel", 150, True), _dataset_case("garage", 200, False), _dataset_case("garage", 200, True),
+                 _dataset_case("intel", 40, True), _dataset_case("garage", 40, True)]
